@@ -493,6 +493,12 @@ func (m *Model) onAtomic(ev Event) {
 			m.fail("overflow", "%s: total weight %d does not exceed the maximum %d", ev, total, m.max)
 			return
 		}
+		if now := m.t(); m.cfg.WithExp() && !cur.shortened && cur.exp < now-tickNanos && cur.writtenAt < now-tickNanos {
+			// maintenance sweeps expired entries before it evicts for size: an entry that expired more
+			// than a tick ago must leave with its Expiration event, not as a size eviction
+			m.fail("sweep", "%s at %d: the entry expired at %d (written at %d), more than one tick ago, but was removed for size without an Expiration event", ev, now, cur.exp, cur.writtenAt)
+			return
+		}
 	default:
 		m.fail("event", "%s: nothing in this operation replaces or invalidates that value", ev)
 		return
